@@ -137,6 +137,8 @@ type fakeIDP struct {
 	// "good", "garbage" (not a JWT), "other-key" (signed by another key), "roles-wrong-type", "aud-other"
 	accessJWT        string
 	advertisedPKCE   []string // nil = ["S256","plain"]
+	forceIDToken     string   // when set, the code grant answers with exactly this raw id_token (replay of an earlier login's token)
+	lastIDToken      string   // the raw id_token of the most recent code grant
 	accessJWTRefresh string // same, for the access token returned by the refresh grant ("" = follow accessJWT)
 	refreshNonce    string // nonce claim to put into refreshed ID tokens of sessions the harness crafted itself
 	ownKey *rsa.PrivateKey // when set: this IdP's signing key (instead of the shared main key)
@@ -424,6 +426,11 @@ func (p *fakeIDP) token(w http.ResponseWriter, form url.Values) {
 		resp := map[string]interface{}{
 			"access_token": p.accessToken(g.user, fmt.Sprintf("at-%d", p.rtSeq)+p.initialTokenPad, p.accessJWT), "token_type": "Bearer", "expires_in": int(p.tokenTTL.Seconds()),
 			"refresh_token": rt, "id_token": p.idToken(g.user, g.nonce),
+		}
+		if p.forceIDToken != "" {
+			resp["id_token"] = p.forceIDToken
+		} else {
+			p.lastIDToken, _ = resp["id_token"].(string)
 		}
 		b, _ := json.Marshal(resp)
 		w.Write(b)
